@@ -35,6 +35,8 @@ def oracle(case, impl):
     ret = int(sv[-1].split()[2])
     if cap == "bad":
         return ["unopenable: save() to a path that cannot be opened returned true"] if ret else []
+    if cap == "dir":
+        return ["unopenable: save() to a name that is an existing directory returned true"] if ret else []
     if cap == "full":
         return ["full-device: save() to a device without space returned true"] if ret else []
     if cap is None or L is None:
@@ -69,6 +71,7 @@ def generate(rng, tier):
         cases.append(Case("full_" + name, lines + ["save"], {"cap": None, "full_len": None, "full": None, "base": name, "is_full": True}))
         cases.append(Case("bad_" + name, lines + ["savepath bad"], {"cap": "bad", "base": name}))
         cases.append(Case("dev_" + name, lines + ["savepath full"], {"cap": "full", "base": name}))
+        cases.append(Case("dir_" + name, lines + ["savepath dir"], {"cap": "dir", "base": name}))
     cases_prog = dict(progs)
     for c in cases:
         c.meta["lines"] = cases_prog[c.meta["base"]]
